@@ -515,6 +515,11 @@ theorem restoreAll_lastAscope (fs : List Frame) (n : Nat) (g : Option Owner) (st
     restoreAll (fs ++ [.ascope n g st m]) c = restore (.ascope n g st m) c' := by
   simp [restoreAll_append, restoreAll, restore]
 
+/-- `aclose()` unwinds a suffix of the stack that ends with the stream's own block -/
+theorem closeEntries_snoc (init : List Entry) (last : Entry) :
+    closeEntries (init ++ [last]) = (init.reverse.takeWhile (fun e => !e.isStream)).reverse ++ [last] := by
+  simp [closeEntries]
+
 /-! ## a consumer session: task `t` consumes stream `h` and does nothing else to its context -/
 
 /-- `t` only calls `__anext__` / `aclose` on `h` or probes; the other tasks do anything but touch `h` -/
@@ -716,11 +721,9 @@ theorem session_step (gens : Gens) (s : Sys) (idx t h : Nat) (c0 : Ctx) (l : Lab
           ⟨st.stack.dropLast, st.stack.getLast hne, (List.dropLast_concat_getLast hne).symm⟩
         have hlf : last.frame = .ascope n g sv m := by
           simpa [hsplit, lastFrame] using hlast
-        simp only [closeEntries, hsplit, List.getLast?_append, List.getLast?_singleton, Option.some_or,
-          unwind_ctx, framesOf, List.map_cons, List.map_nil, restoreAll, hlf]
-        rw [← hr, hsplit]
+        rw [hsplit, closeEntries_snoc, unwind_ctx, ← hr, hsplit]
         simp only [framesOf, List.map_append, List.map_cons, List.map_nil, hlf]
-        exact (restoreAll_lastAscope _ n g sv m tk.ctx tk.ctx).symm
+        rw [restoreAll_lastAscope _ n g sv m tk.ctx tk.ctx, restoreAll_lastAscope _ n g sv m tk.ctx tk.ctx]
     · -- probe
       simp only at hop; subst hop
       exact ⟨tk, st, htk, hst, hinv⟩
@@ -1202,10 +1205,14 @@ theorem close_finished (s : Sys) (h : Nat) (tk : Task) (st : Strm) (hN : NodeInv
     (hl : lookup s.streams h = some st) (hs : st.status = .running) :
     Fin (unwind (closeEntries st.stack) tk.ctx s.world).2 st.node := by
   obtain ⟨g, sv, m, hl0⟩ := (hN h st hl).2 hs
-  simp only [lastFrame, Option.map_eq_some_iff] at hl0
-  obtain ⟨e, he, hf⟩ := hl0
-  simp only [closeEntries, he]
-  exact unwind_fin [e] _ _ e st.node (List.mem_singleton.mpr rfl) (by simp [hf, Frame.node?]) (hN h st hl).1
+  have hne : st.stack ≠ [] := by
+    intro e; simp [e, lastFrame] at hl0
+  obtain ⟨init, last, hsplit⟩ : ∃ init last, st.stack = init ++ [last] :=
+    ⟨st.stack.dropLast, st.stack.getLast hne, (List.dropLast_concat_getLast hne).symm⟩
+  have hlf : last.frame = .ascope st.node g sv m := by
+    simpa [hsplit, lastFrame] using hl0
+  rw [hsplit, closeEntries_snoc]
+  exact unwind_fin _ _ _ last st.node (by simp) (by simp [hlf, Frame.node?]) (hN h st hl).1
 
 theorem isCompleted_mono {w w' : World} (hm : Mono w w') (n : Nat) (h : isCompleted w.nodes n = true) :
     isCompleted w'.nodes n = true := by
